@@ -30,6 +30,8 @@ type env struct {
 	packM map[string]string
 }
 
+var _ = (*env).copyFields
+
 func newEnv() *env {
 	return &env{party: map[string]string{}, amt: map[string]string{}, pack: map[string][]ast.Expr{}, packM: map[string]string{}}
 }
@@ -55,12 +57,27 @@ func idents(e ast.Node) []string {
 	return out
 }
 
+// names: identifiers and field selections (x.f) of an expression, outermost first
+func names(e ast.Node) []string {
+	var out []string
+	ast.Inspect(e, func(n ast.Node) bool {
+		switch x := n.(type) {
+		case *ast.SelectorExpr:
+			out = append(out, Nospace(x))
+		case *ast.Ident:
+			out = append(out, x.Name)
+		}
+		return true
+	})
+	return out
+}
+
 func (en *env) partyOf(e ast.Expr) string {
 	s := Nospace(e)
 	if strings.Contains(s, "EVM_MODULE_ADDRESS") || strings.Contains(s, "evm.ModuleName") {
 		return "PModule"
 	}
-	for _, id := range idents(e) {
+	for _, id := range names(e) {
 		if p, ok := en.party[id]; ok {
 			return p
 		}
@@ -70,7 +87,7 @@ func (en *env) partyOf(e ast.Expr) string {
 
 func (en *env) amtOf(e ast.Expr) string {
 	res := "AUnknown"
-	for _, id := range idents(e) {
+	for _, id := range names(e) {
 		switch en.amt[id] {
 		case "AMeasured":
 			return "AMeasured"
@@ -202,11 +219,17 @@ func (w *walker) call(en *env, c *ast.CallExpr, lhs []string) {
 			for _, fld := range fd.Type.Params.List {
 				for _, nm := range fld.Names {
 					if i < len(a) {
-						if p := en.partyOf(a[i]); p != "PUnknown" {
-							sub.party[nm.Name] = p
-						}
-						if m := en.amtOf(a[i]); m != "AUnknown" {
-							sub.amt[nm.Name] = m
+						if cl := compositeOf(a[i]); cl != nil {
+							sub.bindFields(en, nm.Name, cl) // parameter struct: resolve field reads back to the caller's expressions
+						} else if id, ok := a[i].(*ast.Ident); ok && hasFields(en, id.Name) {
+							sub.copyFields(en, nm.Name, id.Name)
+						} else {
+							if p := en.partyOf(a[i]); p != "PUnknown" {
+								sub.party[nm.Name] = p
+							}
+							if m := en.amtOf(a[i]); m != "AUnknown" {
+								sub.amt[nm.Name] = m
+							}
 						}
 					}
 					i++
@@ -224,6 +247,20 @@ func (w *walker) call(en *env, c *ast.CallExpr, lhs []string) {
 			}
 		}
 	}
+}
+
+func hasFields(en *env, name string) bool {
+	for k := range en.party {
+		if strings.HasPrefix(k, name+".") {
+			return true
+		}
+	}
+	for k := range en.amt {
+		if strings.HasPrefix(k, name+".") {
+			return true
+		}
+	}
+	return false
 }
 
 func orUnknownP(s string) string {
@@ -250,6 +287,11 @@ func performsLedgerOps(fd *ast.FuncDecl, funcs map[string]*ast.FuncDecl, d int) 
 		if hasSuffix(ch, "ERC20", "()", "Transfer") || hasSuffix(ch, "ERC20", "()", "Mint") || hasSuffix(ch, "ERC20", "()", "Burn") ||
 			(len(ch) >= 2 && ch[len(ch)-2] == "Bank" && (strings.HasPrefix(ch[len(ch)-1], "SendCoins") || ch[len(ch)-1] == "MintCoins" || ch[len(ch)-1] == "BurnCoins")) {
 			found = true
+		}
+		if !found && d < 3 {
+			if sub, ok := funcs[ch[len(ch)-1]]; ok && sub != fd && sub.Body != nil && performsLedgerOps(sub, funcs, d+1) {
+				found = true
+			}
 		}
 		return true
 	})
@@ -281,24 +323,18 @@ func (w *walker) calls(en *env, e ast.Node, lhs []string) {
 }
 
 func (w *walker) assign(en *env, lhs []ast.Expr, rhs []ast.Expr) {
-	var names []string
+	var names []string // (shadows the helper of the same name on purpose: not needed here)
 	for _, l := range lhs {
 		names = append(names, Nospace(l))
 	}
 	if len(rhs) == 1 {
-		// classify the literal fields of a bank.MsgSend{FromAddress:…, ToAddress:…, Amount:…}
-		if cl := compositeOf(rhs[0]); cl != nil && strings.HasSuffix(Nospace(cl.Type), "MsgSend") && len(names) == 1 {
-			for _, el := range cl.Elts {
-				if kv, ok := el.(*ast.KeyValueExpr); ok {
-					switch Nospace(kv.Key) {
-					case "FromAddress":
-						en.party[names[0]+".from"] = en.partyOf(kv.Value)
-					case "ToAddress":
-						en.party[names[0]+".to"] = en.partyOf(kv.Value)
-					case "Amount":
-						en.amt[names[0]+".amount"] = en.amtOf(kv.Value)
-					}
-				}
+		// classify the fields of a struct literal: bank.MsgSend{FromAddress:…, ToAddress:…, Amount:…}, parameter structs
+		if cl := compositeOf(rhs[0]); cl != nil && len(names) == 1 {
+			en.bindFields(en, names[0], cl)
+			if strings.HasSuffix(Nospace(cl.Type), "MsgSend") {
+				en.party[names[0]+".from"] = orUnknownP(en.party[names[0]+".FromAddress"])
+				en.party[names[0]+".to"] = orUnknownP(en.party[names[0]+".ToAddress"])
+				en.amt[names[0]+".amount"] = orUnknownA(en.amt[names[0]+".Amount"])
 			}
 		}
 		w.calls(en, rhs[0], names)
@@ -335,12 +371,50 @@ func (w *walker) assign(en *env, lhs []ast.Expr, rhs []ast.Expr) {
 		}
 		return
 	}
+	// a, b := x, y  — pairwise
+	if len(lhs) == len(rhs) {
+		for i := range rhs {
+			w.assign(en, lhs[i:i+1], rhs[i:i+1])
+		}
+		return
+	}
 	for i, r := range rhs {
 		var l []string
 		if i < len(names) {
 			l = names[i : i+1]
 		}
 		w.calls(en, r, l)
+	}
+}
+
+// bindFields records, under "<name>.<Field>", the classes (taken in the env `from`) of the fields of a struct literal
+func (en *env) bindFields(from *env, name string, cl *ast.CompositeLit) {
+	for _, el := range cl.Elts {
+		kv, ok := el.(*ast.KeyValueExpr)
+		if !ok {
+			continue
+		}
+		k := name + "." + Nospace(kv.Key)
+		if p := from.partyOf(kv.Value); p != "PUnknown" {
+			en.party[k] = p
+		}
+		if m := from.amtOf(kv.Value); m != "AUnknown" {
+			en.amt[k] = m
+		}
+	}
+}
+
+// copyFields: the argument is a variable holding a struct whose fields were classified: carry them over
+func (en *env) copyFields(from *env, param, arg string) {
+	for k, v := range from.party {
+		if strings.HasPrefix(k, arg+".") {
+			en.party[param+k[len(arg):]] = v
+		}
+	}
+	for k, v := range from.amt {
+		if strings.HasPrefix(k, arg+".") {
+			en.amt[param+k[len(arg):]] = v
+		}
 	}
 }
 
@@ -392,6 +466,56 @@ func (w *walker) block(en *env, b *ast.BlockStmt) (ret string) {
 			}
 			if eb, ok := s.Else.(*ast.BlockStmt); ok && !endsInReturn(eb) {
 				w.block(en, eb)
+			}
+		case *ast.SwitchStmt:
+			if s.Init != nil {
+				if as, ok := s.Init.(*ast.AssignStmt); ok {
+					w.assign(en, as.Lhs, as.Rhs)
+				}
+			}
+			// switch { case X.IsMadeFromCoin: … default: … }  /  switch X.IsMadeFromCoin { case true: … }
+			var chosen, deflt *ast.CaseClause
+			birthSwitch := false
+			for _, c := range s.Body.List {
+				cc := c.(*ast.CaseClause)
+				if cc.List == nil {
+					deflt = cc
+					continue
+				}
+				for _, e := range cc.List {
+					if s.Tag == nil {
+						if isT, pos := bornTest(e); isT {
+							birthSwitch = true
+							if pos == w.born && chosen == nil {
+								chosen = cc
+							}
+						}
+					} else if isT, pos := bornTest(s.Tag); isT {
+						birthSwitch = true
+						v := Nospace(e)
+						if (v == "true") == (pos == w.born) && (v == "true" || v == "false") && chosen == nil {
+							chosen = cc
+						}
+					}
+				}
+			}
+			if birthSwitch {
+				if chosen == nil {
+					chosen = deflt
+				}
+				if chosen != nil {
+					blk := &ast.BlockStmt{List: chosen.Body}
+					if r := w.block(en, blk); r != "" || endsInReturn(blk) {
+						return r
+					}
+				}
+				continue
+			}
+			for _, c := range s.Body.List {
+				blk := &ast.BlockStmt{List: c.(*ast.CaseClause).Body}
+				if !endsInReturn(blk) {
+					w.block(en, blk)
+				}
 			}
 		case *ast.ReturnStmt:
 			if len(s.Results) >= 1 {
@@ -606,51 +730,47 @@ func transferHelper(funcs map[string]*ast.FuncDecl) string {
 			balVars = append(balVars, Nospace(as.Lhs[0]))
 		case hasSuffix(ch, "Pack") && len(c.Args) >= 1 && Nospace(c.Args[0]) == `"transfer"`:
 			packVar = Nospace(as.Lhs[0])
-		case ch[len(ch)-1] == "CallContractWithInput" && packVar != "" && strings.Contains(Nospace(c), packVar):
+		case packVar != "" && callPos == 0 && argIsIdent(c, packVar) &&
+			(ch[len(ch)-1] == "CallContractWithInput" || reaches(funcs, ch[len(ch)-1], "CallContractWithInput", 0)):
+			// the transfer call itself, directly or through helpers that end in CallContractWithInput
 			callPos = as.Pos()
 		}
 		return true
 	})
 	before := len(balPos) >= 1 && callPos != 0 && balPos[0] < callPos
 	after := len(balPos) >= 2 && callPos != 0 && balPos[len(balPos)-1] > callPos
-	// success flag: a bool unpacked from the return data, and `if !flag { return … error }`
-	checks := false
-	unpacked := map[string]bool{}
-	ast.Inspect(fd.Body, func(n ast.Node) bool {
-		if c, ok := n.(*ast.CallExpr); ok {
-			ch := chain(c.Fun)
-			if ch[len(ch)-1] == "UnpackIntoInterface" && len(c.Args) >= 1 {
-				unpacked[strings.TrimPrefix(Nospace(c.Args[0]), "&")] = true
-			}
-		}
-		return true
-	})
-	flagVars := map[string]bool{}
-	ast.Inspect(fd.Body, func(n ast.Node) bool {
-		switch s := n.(type) {
-		case *ast.AssignStmt:
-			if len(s.Rhs) == 1 && len(s.Lhs) == 1 {
-				for u := range unpacked {
-					if strings.HasPrefix(Nospace(s.Rhs[0]), u+".") {
-						flagVars[Nospace(s.Lhs[0])] = true
+	// success flag: a bool unpacked from the return data, and `if !flag { return … error }` — in Transfer itself, or
+	// in a helper that Transfer calls after the transfer and whose error it propagates
+	checks := checksSuccess(fd)
+	if !checks {
+		var visit func(stmts []ast.Stmt)
+		visit = func(stmts []ast.Stmt) {
+			for i, st := range stmts {
+				if st.Pos() < callPos {
+					continue
+				}
+				var call *ast.CallExpr
+				switch x := st.(type) {
+				case *ast.AssignStmt:
+					if len(x.Rhs) == 1 {
+						call, _ = x.Rhs[0].(*ast.CallExpr)
+					}
+				case *ast.IfStmt:
+					if as, ok := x.Init.(*ast.AssignStmt); ok && len(as.Rhs) == 1 {
+						call, _ = as.Rhs[0].(*ast.CallExpr)
 					}
 				}
-			}
-		case *ast.IfStmt:
-			if u, ok := s.Cond.(*ast.UnaryExpr); ok && u.Op == token.NOT && endsInReturn(s.Body) {
-				x := Nospace(u.X)
-				if flagVars[x] {
+				if call == nil {
+					continue
+				}
+				ch := chain(call.Fun)
+				if h, ok := funcs[ch[len(ch)-1]]; ok && h != fd && h.Body != nil && checksSuccess(h) && errPropagated(stmts, i) {
 					checks = true
 				}
-				for v := range unpacked {
-					if strings.HasPrefix(x, v+".") {
-						checks = true
-					}
-				}
 			}
 		}
-		return true
-	})
+		visit(fd.Body.List)
+	}
 	// increase := new(big.Int).Sub(after, before)
 	incVar, incOK := "", false
 	ast.Inspect(fd.Body, func(n ast.Node) bool {
@@ -701,6 +821,77 @@ func transferHelper(funcs map[string]*ast.FuncDecl) string {
 	})
 	return fmt.Sprintf("{| th_balance_before_call := %s; th_balance_after_call := %s; th_checks_success := %s; th_increase_after_minus_before := %s; th_reject := %s; th_returns_increase := %s |}",
 		b(before), b(after), b(checks), b(incOK), rej, b(retInc))
+}
+
+func argIsIdent(c *ast.CallExpr, name string) bool {
+	for _, a := range c.Args {
+		if id, ok := a.(*ast.Ident); ok && id.Name == name {
+			return true
+		}
+	}
+	return false
+}
+
+// reaches: does function `from` (transitively, same package) call a function named `target`?
+func reaches(funcs map[string]*ast.FuncDecl, from, target string, d int) bool {
+	fd, ok := funcs[from]
+	if !ok || fd.Body == nil || d > 3 {
+		return false
+	}
+	found := false
+	ast.Inspect(fd.Body, func(n ast.Node) bool {
+		if c, ok := n.(*ast.CallExpr); ok && !found {
+			ch := chain(c.Fun)
+			last := ch[len(ch)-1]
+			if last == target || (last != from && reaches(funcs, last, target, d+1)) {
+				found = true
+			}
+		}
+		return true
+	})
+	return found
+}
+
+// checksSuccess: the function unpacks a bool from return data and returns an error when it is false
+func checksSuccess(fd *ast.FuncDecl) bool {
+	unpacked := map[string]bool{}
+	ast.Inspect(fd.Body, func(n ast.Node) bool {
+		if c, ok := n.(*ast.CallExpr); ok {
+			ch := chain(c.Fun)
+			if ch[len(ch)-1] == "UnpackIntoInterface" && len(c.Args) >= 2 && Nospace(c.Args[1]) == `"transfer"` {
+				unpacked[strings.TrimPrefix(Nospace(c.Args[0]), "&")] = true
+			}
+		}
+		return true
+	})
+	flagVars := map[string]bool{}
+	res := false
+	ast.Inspect(fd.Body, func(n ast.Node) bool {
+		switch s := n.(type) {
+		case *ast.AssignStmt:
+			if len(s.Rhs) == 1 && len(s.Lhs) == 1 {
+				for u := range unpacked {
+					if strings.HasPrefix(Nospace(s.Rhs[0]), u+".") {
+						flagVars[Nospace(s.Lhs[0])] = true
+					}
+				}
+			}
+		case *ast.IfStmt:
+			if u, ok := s.Cond.(*ast.UnaryExpr); ok && u.Op == token.NOT && returnsError(s.Body) {
+				x := Nospace(u.X)
+				if flagVars[x] {
+					res = true
+				}
+				for v := range unpacked {
+					if strings.HasPrefix(x, v+".") {
+						res = true
+					}
+				}
+			}
+		}
+		return true
+	})
+	return res
 }
 
 // ---------------------------------------------------------------- CreateFunToken guards
@@ -885,6 +1076,77 @@ func roleOf(e ast.Expr, pidx map[string]int, locals map[string]ast.Expr, rangeOf
 	return "?" + s
 }
 
+// syncedArgs: which of the call's argument expressions does helper h hand to SyncStateDBWithAccount (directly, by
+// ranging over a variadic parameter, or through further helpers), and is that guarded by the gas-coin test?
+func syncedArgs(h *ast.FuncDecl, args []ast.Expr, funcs map[string]*ast.FuncDecl, d int) (out []ast.Expr, guarded bool) {
+	if d > 3 {
+		return nil, false
+	}
+	bound := map[string][]ast.Expr{}
+	i := 0
+	for _, fld := range h.Type.Params.List {
+		_, variadic := fld.Type.(*ast.Ellipsis)
+		for _, nm := range fld.Names {
+			if variadic {
+				if i <= len(args) {
+					bound[nm.Name] = args[i:]
+				}
+				i = len(args)
+			} else {
+				if i < len(args) {
+					bound[nm.Name] = args[i : i+1]
+				}
+				i++
+			}
+		}
+	}
+	rangeVar := map[string]string{}
+	resolve := func(e ast.Expr) []ast.Expr {
+		n := Nospace(e)
+		if p, ok := rangeVar[n]; ok {
+			return bound[p]
+		}
+		if b, ok := bound[n]; ok {
+			return b
+		}
+		return nil
+	}
+	ast.Inspect(h.Body, func(n ast.Node) bool {
+		switch s := n.(type) {
+		case *ast.RangeStmt:
+			if s.Value != nil {
+				rangeVar[Nospace(s.Value)] = Nospace(s.X)
+			}
+		case *ast.CallExpr:
+			ch := chain(s.Fun)
+			switch ch[len(ch)-1] {
+			case "SyncStateDBWithAccount":
+				if len(s.Args) == 2 {
+					out = append(out, resolve(s.Args[1])...)
+				}
+			case "findEtherBalanceChangeFromCoins":
+				guarded = true
+			default:
+				if h2, ok := funcs[ch[len(ch)-1]]; ok && h2 != h && h2.Body != nil {
+					var sub []ast.Expr
+					for _, a := range s.Args {
+						if r := resolve(a); len(r) == 1 {
+							sub = append(sub, r[0])
+						} else {
+							sub = append(sub, a)
+						}
+					}
+					o, g := syncedArgs(h2, sub, funcs, d+1)
+					out = append(out, o...)
+					guarded = guarded || g
+				}
+			}
+		}
+		return true
+	})
+	return
+}
+
 func syncRoles(after ast.Expr, pidx map[string]int, funcs map[string]*ast.FuncDecl) (roles []string, guarded bool) {
 	switch a := after.(type) {
 	case *ast.FuncLit:
@@ -909,6 +1171,15 @@ func syncRoles(after ast.Expr, pidx map[string]int, funcs map[string]*ast.FuncDe
 					}
 				case "findEtherBalanceChangeFromCoins":
 					guarded = true
+				default:
+					// a helper that syncs (some of) its arguments, e.g. syncIfEtherChanged(ctx, coins, accs...)
+					if h, ok := funcs[ch[len(ch)-1]]; ok && h.Body != nil {
+						args, g := syncedArgs(h, s.Args, funcs, 0)
+						guarded = guarded || g
+						for _, a := range args {
+							roles = append(roles, roleOf(a, pidx, locals, rangeOf))
+						}
+					}
 				}
 			}
 			return true
